@@ -908,8 +908,17 @@ def c36(run):
 def c04(run):
     run.rec_leg("garbage", ["garbage"], spec="TV_Parse", cfg="TV_Parse.cfg",
                 verdict=["panic", "errspan", "string-literal", "unknown-event"], workers=16)
+    # MC + RP: every text of up to 3 (thorough: 4) tokens out of 20: the specification's tokenizer and grammar are total on it
+    # (spans inside the text), and the real parser neither panics nor reports a span outside it; acceptance and the statements
+    # read must be those of the grammar (drift here; C03 owns that)
+    run.rp_rec_leg("rp_garbage", "MC_Garbage", "MC_Garbage4.cfg" if run.tier == "thorough" else "MC_Garbage.cfg", "parse",
+                   "MC_Garbage_ops.ndjson", spec="TV_Parse", cfg="TV_Parse.cfg", verdict=["panic", "errspan", "unknown-event"], workers=16)
     return run.finish(
-        rule="(1) every text `.stringz \"` + s for all strings s of up to 4 (thorough: 6) symbols over {quote, backslash, n, a, "
+        rule="(0) MC + RP: every text of up to 3 (thorough: 4) tokens out of 20 (mnemonics, register, comma, colon, newline, numbers in and "
+             "out of range, a bare sign, label, directives, closed and unclosed string literal, comment, non-ASCII character) separated by "
+             "spaces - 8 420 (168 420) texts: Lexer!Tokenize and Grammar!ParseProgram are total, lexical errors and statement spans lie "
+             "inside the text; each text then goes through the real parser (no panic, one error span inside the input; agreement with the "
+             "grammar as drift); (1) every text `.stringz \"` + s for all strings s of up to 4 (thorough: 6) symbols over {quote, backslash, n, a, "
              "e-acute, LF, CR, space}: TLC predicts the exact outcome with Lexer!ScanStr / Grammar (the string value, or an "
              "unclosed-literal error whose span runs from the quote to the end of the line); (2) targeted edges (70 000-character "
              "literals and identifiers, 5 000-digit numbers, backslash at end of line/input, non-ASCII after a backslash, in "
@@ -1299,8 +1308,18 @@ def c29(run):
 @check("C30")
 def c30(run):
     run.trace_leg("reset", ["machine", "kind=reset"], verdict=CONF + ["newok", "kept"])
+    # MC + RP: C30 stated on MachineProps!ResetOf for every machine reachable by up to 2 (thorough: 3) calls of a 25-call
+    # alphabet; every maximal history is then performed on a real simulator, reset, probed, run, reset again
+    run.rp_leg("rp_reset", "MC_Reset", "MC_Reset3.cfg" if run.tier == "thorough" else "MC_Reset.cfg", "reset", "MC_Reset_ops.ndjson",
+               verdict=CONF + ["newok", "kept", "nsteps", "pause"], workers=8)
     return run.finish(
-        rule="random histories (loads, steps, register/memory pokes, flag changes, breakpoints, timer and register "
+        rule="MC: on every machine reachable by up to 2 (thorough: 3) calls out of 25 (pokes, steps, flag changes, devices and timers "
+             "attached and removed, keyboard/display removed, internal registers mapped/unmapped/rebound, MCR set, port writes, "
+             "keys, a breakpoint, a load, a subroutine definition, reset itself: 651 / 16 276 states) TLC evaluates the statement of "
+             "C30 on ResetOf (execution state of a new machine for the current flags, configuration kept, devices io_reset, reset "
+             "idempotent).  RP: each of the 625 (15 625) maximal histories is performed on a real simulator, followed by reset, probes "
+             "through the kept ports and mappings, a bounded run that the kept breakpoint must stop, a second reset and two steps; "
+             "TV_Machine validates every call.  TV: random histories (loads, steps, register/memory pokes, flag changes, breakpoints, timer and register "
              "devices, internal-register mappings, keyboard IE) followed by reset, twice per run, for Known and Seeded "
              "strategies; TLC requires the post-reset projection (incl. full memory diff) to equal ResetTo = the "
              "run's fresh header with flags/MCR/mappings/devices kept and devices io_reset; probes through the "
